@@ -15,7 +15,7 @@ func init() {
 	commands["c09"] = func(a []string) { runFC("C09") }
 	commands["c10"] = func(a []string) { runFC("C10") }
 	commands["c11"] = func(a []string) { runFC("C11") }
-	commands["replay-fc"] = replayFC
+	replayers["C09"], replayers["C10"], replayers["C11"] = replayFC, replayFC, replayFC
 }
 
 var fcDepth = map[string]map[string][2]int{ // property -> scenario -> depth (quick, thorough)
